@@ -35,6 +35,35 @@ CLAIMED = {
             'their own unit); numpy; astropy unit conversion for building '
             'the inputs.',
             'DESIGN.md section 5, C01'),
+    'C02': ('exploration',
+            'Hypothesis property test: every mask value vs the reference '
+            'membership evaluated on the n x n sub-sample lattice (interval '
+            '[lo, hi] widened only by samples inside the rounding band); '
+            'mode/argument validation table',
+            'Random search over maskable classes, annuli and compounds to '
+            'depth 3, all alignments to the pixel grid incl. far centres, '
+            'subpixels 1..12. Every pixel of every generated mask is '
+            'compared (rows band for very large masks). Catches a half-pixel '
+            'grid shift, swapped padding, a 1e-4 relative size change in a '
+            'compiled kernel (mutant runs). Random evidence, not a proof.',
+            'Reference membership vf/ref/geometry.py; kernels are the built '
+            '.so files (rebuilt from .c when stale; .pyx edits cannot be '
+            'translated offline).',
+            'DESIGN.md section 5, C02'),
+    'C04': ('exploration',
+            'Hypothesis property test: integer box vs the true extent in '
+            '40-digit mpmath (enclosure + minimality), exact (tolerance 0) on '
+            'the dyadic edge-aligned family; union algebra for compounds; '
+            'member points inside extent; mask box identity',
+            'Random search over all pixel classes with a dedicated '
+            'edge-aligned family (extremes exactly on / one ulp off pixel '
+            'edges) where the comparison is exact, plus generic geometry with '
+            'a 64-eps tolerance. Detects round-half-even vs floor(x+0.5) '
+            '(mutant run).',
+            'mpmath arithmetic; extents formulae in vf/ref/extent.py; '
+            'compound boxes compared with the union of the library\'s own '
+            'leaf boxes (leaf boxes are checked individually).',
+            'DESIGN.md section 5, C04'),
 }
 
 PENDING_REASON = ('check designed (DESIGN.md section 5) but not yet built and '
